@@ -882,9 +882,10 @@ theorem truthy_digits (d : Str) (h : DigitsOK d) : (DefaultVal.int d).truthy = t
     have hx : x ≠ '0' := by intro e; subst e; simp at hhead
     simp [DefaultVal.truthy, hx]
 
-theorem FCol.render (ap : Bool) (ts : List Table) (refs : List Ref) (ti ci : Nat) (s : FCol) (hok : s.ok ap)
-    (hni : ∀ r ∈ refs, r.inline = false) :
-    Dbml.renderColumn { tables := ts, refs := refs, allowProps := ap } ti ci s.col = .ok s.str := by
+theorem FCol.render (db : Db) (ti ci : Nat) (s : FCol) (hok : s.ok db.allowProps)
+    (hni : ∀ r ∈ db.refs, r.inline = false) :
+    Dbml.renderColumn db ti ci s.col = .ok s.str := by
+  generalize hap : db.allowProps = ap at hok
   have hnl := containsChar_plain s.note hok.notePlain
   have hdig := hok.digits
   have hprops : (if ap then s.props.map (fun (kv : Str × Str) => kv.1 ++ lit ": " ++ quoteString kv.2) else [])
@@ -929,14 +930,14 @@ theorem FCol.render (ap : Bool) (ts : List Table) (refs : List Ref) (ti ci : Nat
     rw [ho, FCol.str, flagsText_eq]
     simp [FCol.col, Dbml.optComment, lit]
   unfold Dbml.renderColumn
-  have hty : Sql.typeText { tables := ts, refs := refs, allowProps := ap } s.col = .ok s.type := by
+  have hty : Sql.typeText db s.col = .ok s.type := by
     simp [Sql.typeText, FCol.col, pure, Except.pure]
-  have hin : Dbml.inlineRefsOfColumn { tables := ts, refs := refs, allowProps := ap } ti ci = [] := by
+  have hin : Dbml.inlineRefsOfColumn db ti ci = [] := by
     unfold Dbml.inlineRefsOfColumn
     rw [List.filter_eq_nil_iff]
     intro r hr
     simp [hni r hr]
-  simp only [hty, hin, List.mapM_nil, bind, Except.bind, pure, Except.pure]
+  simp only [hty, hin, List.mapM_nil, bind, Except.bind, pure, Except.pure, hap]
   exact fin _ hopts
 
 def flagForm : ColForm FCol where
@@ -982,21 +983,22 @@ def flagForm : ColForm FCol where
     · exact (flagsText_line ap s.flags (FCol.flags_ok ap s hok)).1 ch h
   norefs := fun _ => rfl
   build := by
-    intro ap s hok
+    intro ap enums s hok hres
     have hn := hok.noteNorm
     have hdig := hok.digits
     obtain ⟨n, t, a, b, c, d, e, ps, dd⟩ := s
+    have hres' : resolveTypePure enums t = ColType.plain t := hres
     cases dd with
     | nil =>
       cases ps <;> cases e <;>
-        simp_all [buildColumn, buildDefault, resolveType, resolveTypePure, buildNote, FCol.bp, FCol.col,
+        simp_all [buildColumn, buildDefault, resolveType, buildNote, FCol.bp, FCol.col,
           bind, Except.bind, pure, Except.pure]
     | cons x0 xs0 =>
       have hs := stripLeadingZeros_digits (x0 :: xs0) (by simpa using hdig)
       cases ps <;> cases e <;>
-        simp_all [buildColumn, buildDefault, resolveType, resolveTypePure, buildNote, FCol.bp, FCol.col,
+        simp_all [buildColumn, buildDefault, resolveType, buildNote, FCol.bp, FCol.col,
           bind, Except.bind, pure, Except.pure]
-  render := fun ap ts refs ti ci s hok hni => FCol.render ap ts refs ti ci s hok hni
+  render := fun db ti ci s hok hni => FCol.render db ti ci s hok hni
 
 /-- **C02 (and C15) for a table whose columns carry settings, end to end**: a database holding one table in schema
     public with any positive number of columns, each with a quoted name, a one-word type, ANY SUBSET of the settings
